@@ -194,7 +194,7 @@ Proof.
   unfold parse_route_param. destruct (index_byte ">"%char s) as [pos|]; [|discriminate].
   pose proof (parse_name_addr_no_panic (firstn (S pos) s)) as H.
   destruct (parse_name_addr (firstn (S pos) s)); cbn [rbind]; try discriminate; [|contradiction].
-  destruct (trim_space (skipn (S pos) s)) as [|c rest]; [discriminate|].
+  destruct (trim_space_go (skipn (S pos) s)) as [|c rest]; [discriminate|].
   destruct (Ascii.eqb c ";"%char); [|discriminate].
   pose proof (parse_generic_params_no_panic (split_byte ";"%char rest)) as G.
   destruct (parse_generic_params (split_byte ";"%char rest)); cbn [rbind]; try discriminate. contradiction.
@@ -662,7 +662,7 @@ Proof. vm_compute. repeat split. Qed.
    from 10.0.0.5 over UDP and its Route names 10.0.0.5:5070 with transport=tcp; 10.0.0.5 accepts
    TCP connections on 5070. *)
 Definition b1_fixes : fixes :=
-  {| fx_wiring := true; fx_udp_via_listener := false; fx_indialog_invite := true; fx_bracket_host := true |}.
+  {| fx_wiring := true; fx_udp_via_listener := false; fx_indialog_invite := true; fx_bracket_host := true; fx_resolved_key := true |}.
 Definition b1_req : list string :=
   req "sip:bob@elsewhere.example" [] ["Route: <sip:10.0.0.5:5070;transport=tcp;lr>"%string] "<sip:bob@elsewhere.example>" [].
 Theorem C03_b1_legacy_refuted :
